@@ -1101,6 +1101,16 @@ pub fn gen_other(rng: &mut Rng, keep_pct: u64) -> Vec<Prog> {
     }
     // PC at several positions, JUMPDEST as plain instruction, STOP, INVALID, undefined opcodes
     add("flow:PC", vec![0x58, 0x60, 0x00, 0x58, 0x7f, 1, 2, 3, 4, 5, 6, 7, 8, 9, 10, 11, 12, 13, 14, 15, 16, 17, 18, 19, 20, 21, 22, 23, 24, 25, 26, 27, 28, 29, 30, 31, 32, 0x58, 0x01, 0x01, 0x01, 0x01, 0x5f, 0x52, 0x60, 0x20, 0x5f, 0xf3], vec![], 8);
+    {
+        // PC (and a JUMP) beyond byte 255 and beyond byte 4095 of the code
+        for pad in [300usize, 5000] {
+            let l = 3 + pad;
+            let mut c = vec![0x61, (l >> 8) as u8, l as u8, 0x56]; // PUSH2 l; JUMP
+            c.extend(vec![0xfe; pad - 1]);
+            c.extend([0x5b, 0x58, 0x5f, 0x52, 0x58, 0x60, 0x20, 0x52, 0x60, 0x40, 0x5f, 0xf3]);
+            add("flow:PC-far", c, vec![], 8);
+        }
+    }
     add("flow:JUMPDEST", vec![0x5b, 0x5b, 0x60, 0x01, 0x5b, 0x5f, 0x55], vec![], 8);
     add("flow:STOP", vec![0x60, 0x01, 0x5f, 0x55, 0x00, 0x60, 0x02, 0x5f, 0x55], vec![], 8);
     add("flow:INVALID", vec![0x60, 0x01, 0x5f, 0x55, 0xfe], vec![], 8);
